@@ -3,7 +3,7 @@
    All theorems are about decode with offset >= 0 on byte strings (bytes_ok). *)
 From Coq Require Import ZArith List Bool.
 From NV Require Import Base.Result Base.Bytes Model.Pdu
-  Model.PduSpec Gen.PduLen Bridge.Pdu Proofs.PduBase Proofs.PduWin Proofs.PduLen Proofs.PduRt Proofs.PduTotal Proofs.PduAgf Proofs.PduSound.
+  Base.PyPrims Model.PduSpec Gen.PduLen Gen.PduK Gen.CollectK Bridge.Pdu Proofs.PduBase Proofs.PduWin Proofs.PduLen Proofs.PduRt Proofs.PduTotal Proofs.PduAgf Proofs.PduSound.
 Import ListNotations.
 Open Scope Z_scope.
 
@@ -114,6 +114,253 @@ Print Assumptions C11_bridge_len_rnr.
 Theorem C11_bridge_len_unknown : forall pt d s payload, gen_len_UnknownProtocolDataUnit payload = pdu_len (Unknown pt d s payload).
 Proof. exact bridge_len_unknown. Qed.
 Print Assumptions C11_bridge_len_unknown.
+
+
+(* --- tie, round 2: the codec kernels regenerated from pdu.py on this run (Gen/PduK.v: header bit packing, the
+       parameter codec with its length limits and reserved-bit masks, the size tests of decode() and of
+       AggregatedFrame.decode incl. the nested-AGF guard, the Connect/CC encode tests and defaults, FRMR packing)
+       are the expressions / functions of Model/Pdu.v.  MIUX test and mask: C10's kernels in Gen/CollectK.v --- *)
+Theorem C11_bridge_encode_header pt d s :
+  encode_header pt d s =
+  if gen_pdu_hdr_neg d s then EEncodeError else if gen_pdu_hdr_big d s then EEncodeError
+  else if in_range 0 65535 (gen_pdu_hdr_value d pt s) then EOk (gen_pdu_hdr_bytes d pt s) else ECrash StructErr.
+Proof. exact (bridge_encode_header pt d s). Qed.
+Print Assumptions C11_bridge_encode_header.
+Theorem C11_bridge_encode_nheader pt d s ns nr :
+  encode_nheader pt d s ns nr =
+  edo h <- encode_header pt d s;
+  if gen_pdu_seq_neg ns nr then EEncodeError else if gen_pdu_seq_big ns nr then EEncodeError
+  else EOk (h ++ gen_pdu_seq_bytes ns nr).
+Proof. exact (bridge_encode_nheader pt d s ns nr). Qed.
+Print Assumptions C11_bridge_encode_nheader.
+Theorem C11_bridge_decode_header data off size a b :
+ rd data off = Some a -> rd data (off + 1) = Some b ->
+  decode_header data off size =
+  if gen_pdu_hdr_short size gen_pdu_hdr_size then Err DecodeError
+  else Ok (gen_pdu_hdr_field0 data off, gen_pdu_hdr_field1 data off).
+Proof. exact (bridge_decode_header data off size a b). Qed.
+Print Assumptions C11_bridge_decode_header.
+Theorem C11_bridge_decode_nheader data off size a b q :
+  rd data off = Some a -> rd data (off + 1) = Some b -> rd data (off + 2) = Some q ->
+  decode_nheader data off size =
+  if gen_pdu_nhdr_short size gen_pdu_nhdr_size then Err DecodeError
+  else Ok (gen_pdu_nhdr_field0 data off, gen_pdu_nhdr_field1 data off, gen_pdu_nhdr_field2 data off, gen_pdu_nhdr_field3 data off).
+Proof. exact (bridge_decode_nheader data off size a b q). Qed.
+Print Assumptions C11_bridge_decode_nheader.
+Theorem C11_bridge_penc_types :
+  gen_pdu_penc_u8_types = [gen_pdu_T_VERSION; gen_pdu_T_LTO; gen_pdu_T_RW; gen_pdu_T_OPT] /\
+  gen_pdu_penc_u16_types = [gen_pdu_T_MIUX; gen_pdu_T_WKS] /\
+  gen_pdu_penc_bytes_types = [gen_pdu_T_SN; gen_pdu_T_ECPK; gen_pdu_T_RN] /\
+  [gen_pdu_T_VERSION; gen_pdu_T_MIUX; gen_pdu_T_WKS; gen_pdu_T_LTO; gen_pdu_T_RW; gen_pdu_T_SN; gen_pdu_T_OPT;
+   gen_pdu_T_SDREQ; gen_pdu_T_SDRES; gen_pdu_T_ECPK; gen_pdu_T_RN] = [1; 2; 3; 4; 5; 6; 7; 8; 9; 10; 11].
+Proof. exact (bridge_penc_types). Qed.
+Print Assumptions C11_bridge_penc_types.
+Theorem C11_bridge_param_encode t :
+  param_encode t =
+  match t with
+  | TVersion v => if in_range 0 255 v then EOk (gen_pdu_penc_u8 gen_pdu_T_VERSION v) else EEncodeError
+  | TMiux v => if in_range 0 65535 v then EOk (gen_pdu_penc_u16 gen_pdu_T_MIUX v) else EEncodeError
+  | TWks v => if in_range 0 65535 v then EOk (gen_pdu_penc_u16 gen_pdu_T_WKS v) else EEncodeError
+  | TLto v => if in_range 0 255 v then EOk (gen_pdu_penc_u8 gen_pdu_T_LTO v) else EEncodeError
+  | TRw v => if in_range 0 255 v then EOk (gen_pdu_penc_u8 gen_pdu_T_RW v) else EEncodeError
+  | TSn b => if gen_pdu_penc_bytes_long b then EEncodeError else EOk (gen_pdu_penc_bytes gen_pdu_T_SN b)
+  | TOpt v => if in_range 0 255 v then EOk (gen_pdu_penc_u8 gen_pdu_T_OPT v) else EEncodeError
+  | TSdreq tid sn => if gen_pdu_penc_sdreq_long sn then EEncodeError
+                     else if in_range 0 255 tid then EOk (gen_pdu_penc_sdreq gen_pdu_T_SDREQ tid sn) else EEncodeError
+  | TSdres tid sap => if in_range 0 255 tid && in_range 0 255 sap
+                      then EOk (gen_pdu_penc_sdres gen_pdu_T_SDRES tid sap) else EEncodeError
+  | TEcpk b => if gen_pdu_penc_bytes_long b then EEncodeError else EOk (gen_pdu_penc_bytes gen_pdu_T_ECPK b)
+  | TRn b => if gen_pdu_penc_bytes_long b then EEncodeError else EOk (gen_pdu_penc_bytes gen_pdu_T_RN b)
+  | TOther _ _ => EEncodeError
+  end.
+Proof. exact (bridge_param_encode t). Qed.
+Print Assumptions C11_bridge_param_encode.
+Theorem C11_bridge_param_decode data off size T L :
+ rd data off = Some T -> rd data (off + 1) = Some L ->
+  param_decode data off size =
+  if off + 2 + L >? len data then Err DecodeError
+  else if gen_pdu_pdec_exceeds L size then Err DecodeError
+  else do t <- tlv_interp T L (slice data (off + 2) (off + 2 + L)); Ok (L, t).
+Proof. exact (bridge_param_decode data off size T L). Qed.
+Print Assumptions C11_bridge_param_decode.
+Theorem C11_bridge_pdec_version L v :
+  tlv_interp gen_pdu_T_VERSION L [v] =
+  if gen_pdu_pdec_VERSION_badlen L then Err DecodeError else Ok (TVersion (gen_pdu_pdec_VERSION_raw [v])).
+Proof. exact (bridge_pdec_version L v). Qed.
+Print Assumptions C11_bridge_pdec_version.
+Theorem C11_bridge_pdec_lto L v :
+  tlv_interp gen_pdu_T_LTO L [v] =
+  if gen_pdu_pdec_LTO_badlen L then Err DecodeError else Ok (TLto (gen_pdu_pdec_LTO_raw [v])).
+Proof. exact (bridge_pdec_lto L v). Qed.
+Print Assumptions C11_bridge_pdec_lto.
+Theorem C11_bridge_pdec_wks L a b :
+  tlv_interp gen_pdu_T_WKS L [a; b] =
+  if gen_pdu_pdec_WKS_badlen L then Err DecodeError else Ok (TWks (gen_pdu_pdec_WKS_raw [a; b])).
+Proof. exact (bridge_pdec_wks L a b). Qed.
+Print Assumptions C11_bridge_pdec_wks.
+Theorem C11_bridge_pdec_miux L a b :
+ 0 <= a < 256 -> 0 <= b < 256 ->
+  tlv_interp gen_pdu_T_MIUX L [a; b] =
+  if gen_pdu_pdec_MIUX_badlen L then Err DecodeError
+  else Ok (TMiux (let V := gen_pdu_pdec_MIUX_raw [a; b] in
+                  if negb (gen_c10_miux_reserved V =? 0) then gen_c10_miux_masked V else V)).
+Proof. exact (bridge_pdec_miux L a b). Qed.
+Print Assumptions C11_bridge_pdec_miux.
+Theorem C11_bridge_pdec_rw L v :
+ 0 <= v < 256 ->
+  tlv_interp gen_pdu_T_RW L [v] =
+  if gen_pdu_pdec_RW_badlen L then Err DecodeError
+  else Ok (TRw (let V := gen_pdu_pdec_RW_raw [v] in
+                if negb (gen_pdu_pdec_RW_reserved V =? 0) then gen_pdu_pdec_RW_masked V else V)).
+Proof. exact (bridge_pdec_rw L v). Qed.
+Print Assumptions C11_bridge_pdec_rw.
+Theorem C11_bridge_pdec_opt L v :
+ 0 <= v < 256 ->
+  tlv_interp gen_pdu_T_OPT L [v] =
+  if gen_pdu_pdec_OPT_badlen L then Err DecodeError
+  else Ok (TOpt (let V := gen_pdu_pdec_OPT_raw [v] in
+                 if negb (gen_pdu_pdec_OPT_reserved V =? 0) then gen_pdu_pdec_OPT_masked V else V)).
+Proof. exact (bridge_pdec_opt L v). Qed.
+Print Assumptions C11_bridge_pdec_opt.
+Theorem C11_bridge_pdec_sdreq L tid sn :
+  tlv_interp gen_pdu_T_SDREQ L (tid :: sn) = if gen_pdu_pdec_SDREQ_badlen L then Err DecodeError else Ok (TSdreq tid sn).
+Proof. exact (bridge_pdec_sdreq L tid sn). Qed.
+Print Assumptions C11_bridge_pdec_sdreq.
+Theorem C11_bridge_pdec_sdres L a b :
+  tlv_interp gen_pdu_T_SDRES L [a; b] = if gen_pdu_pdec_SDRES_badlen L then Err DecodeError else Ok (TSdres a b).
+Proof. exact (bridge_pdec_sdres L a b). Qed.
+Print Assumptions C11_bridge_pdec_sdres.
+Theorem C11_bridge_pdec_bytes L V :
+  tlv_interp gen_pdu_T_SN L V = Ok (TSn V) /\ tlv_interp gen_pdu_T_ECPK L V = Ok (TEcpk V) /\
+  tlv_interp gen_pdu_T_RN L V = Ok (TRn V).
+Proof. exact (bridge_pdec_bytes L V). Qed.
+Print Assumptions C11_bridge_pdec_bytes.
+Theorem C11_bridge_tlv_loop_step f step data off size st :
+  tlv_loop (S f) step data off size st =
+  if negb (gen_pdu_tlv_more size) then Ok st else
+  do (L, t) <- param_decode data off size;
+  tlv_loop f step data (gen_pdu_tlv_next_offset off L) (gen_pdu_tlv_next_size size L) (step st t).
+Proof. exact (bridge_tlv_loop_step f step data off size st). Qed.
+Print Assumptions C11_bridge_tlv_loop_step.
+Theorem C11_bridge_decode_guard agf data off size :
+  decode_gen agf data off size =
+  if gen_pdu_dec_exceeds data off size then Err DecodeError
+  else if gen_pdu_dec_short size then Err DecodeError else decode_gen agf data off size.
+Proof. exact (bridge_decode_guard agf data off size). Qed.
+Print Assumptions C11_bridge_decode_guard.
+Theorem C11_bridge_decode_ptype data off a b :
+ rd data off = Some a -> rd data (off + 1) = Some b ->
+  gen_pdu_dec_ptype data off = Z.land (Z.shiftr (a * 256 + b) 6) 15.
+Proof. exact (bridge_decode_ptype data off a b). Qed.
+Print Assumptions C11_bridge_decode_ptype.
+Theorem C11_bridge_type_map :
+  gen_pdu_type_map =
+  [(gen_pdu_ptype_Symmetry, 0); (gen_pdu_ptype_ParameterExchange, 1); (gen_pdu_ptype_AggregatedFrame, 2);
+   (gen_pdu_ptype_UnnumberedInformation, 3); (gen_pdu_ptype_Connect, 4); (gen_pdu_ptype_Disconnect, 5);
+   (gen_pdu_ptype_ConnectionComplete, 6); (gen_pdu_ptype_DisconnectedMode, 7); (gen_pdu_ptype_FrameReject, 8);
+   (gen_pdu_ptype_ServiceNameLookup, 9); (gen_pdu_ptype_DataProtectionSetup, 10); (gen_pdu_ptype_Information, 11);
+   (gen_pdu_ptype_ReceiveReady, 12); (gen_pdu_ptype_ReceiveNotReady, 13)] /\
+  map fst gen_pdu_type_map = [0; 1; 2; 3; 4; 5; 6; 7; 8; 9; 10; 12; 13; 14].
+Proof. exact (bridge_type_map). Qed.
+Print Assumptions C11_bridge_type_map.
+Theorem C11_bridge_unknown_ptype data off a b :
+ rd data off = Some a -> rd data (off + 1) = Some b ->
+  gen_pdu_unknown_ptype data off = Z.land (Z.lor (Z.shiftl a 2) (Z.shiftr b 6)) 15.
+Proof. exact (bridge_unknown_ptype data off a b). Qed.
+Print Assumptions C11_bridge_unknown_ptype.
+Theorem C11_bridge_payloads data off size :
+ 0 <= off -> 0 <= off + size ->
+  gen_pdu_ui_payload data off size = slice data (off + 2) (off + size) /\
+  gen_pdu_info_payload data off size = slice data (off + 3) (off + size) /\
+  gen_pdu_unknown_payload data off size = slice data (off + 2) (off + size).
+Proof. exact (bridge_payloads data off size). Qed.
+Print Assumptions C11_bridge_payloads.
+Theorem C11_bridge_agf_step f data off size acc :
+  agf_loop (S f) data off size acc =
+  if negb (gen_pdu_agf_more size) then Ok acc else
+  if gen_pdu_agf_lenshort size then Err DecodeError else
+  match rd data off, rd data (off + 1) with
+  | Some _, Some _ =>
+      let n := gen_pdu_agf_len data off in
+      if gen_pdu_agf_exceeds n size then Err DecodeError else
+      do p <- decode_sub data (off + 2) n;
+      agf_loop f data (gen_pdu_agf_next_offset off n) (gen_pdu_agf_next_size size n) (acc ++ [p])
+  | _, _ => Err DecodeError
+  end.
+Proof. exact (bridge_agf_step f data off size acc). Qed.
+Print Assumptions C11_bridge_agf_step.
+Theorem C11_bridge_agf_member data moff n :
+ 0 <= moff ->
+  decode_sub data moff n =
+  if gen_pdu_agf_guard n && gen_pdu_agf_is_agf data moff then Err DecodeError else decode data moff n.
+Proof. exact (bridge_agf_member data moff n). Qed.
+Print Assumptions C11_bridge_agf_member.
+Theorem C11_bridge_agf_tests n size off :
+  gen_pdu_agf_exceeds n size = (n >? size - 2) /\ gen_pdu_agf_next_offset off n = off + 2 + n /\
+  gen_pdu_agf_next_size size n = size - 2 - n /\ (forall d s, gen_pdu_agf_nonzero d s = negb (d =? 0) || negb (s =? 0)).
+Proof. exact (bridge_agf_tests n size off). Qed.
+Print Assumptions C11_bridge_agf_tests.
+Theorem C11_bridge_agf_frame e :
+ 0 <= len e <= 65535 -> agf_body [e] = EOk (gen_pdu_agf_frame e).
+Proof. exact (bridge_agf_frame e). Qed.
+Print Assumptions C11_bridge_agf_frame.
+Theorem C11_bridge_class_tests d s size :
+  gen_pdu_symm_badsap d s = negb (d =? 0) || negb (s =? 0) /\ gen_pdu_symm_payload size = (size >=? 3) /\
+  gen_pdu_pax_badsap d s = negb (d =? 0) || negb (s =? 0) /\ gen_pdu_snl_badsap d s = negb (d =? 1) || negb (s =? 1) /\
+  gen_pdu_dps_badsap d s = negb (d =? 0) || negb (s =? 0) /\
+  gen_pdu_symm_enc_badsap d s = negb (d =? 0) || negb (s =? 0) /\ gen_pdu_pax_enc_badsap d s = negb (d =? 0) || negb (s =? 0) /\
+  gen_pdu_dps_enc_badsap d s = negb (d =? 0) || negb (s =? 0) /\ gen_pdu_agf_enc_nonzero d s = negb (d =? 0) || negb (s =? 0) /\
+  gen_pdu_dm_badsize size = negb (size =? 3) /\ gen_pdu_frmr_badsize size = negb (size =? 6).
+Proof. exact (bridge_class_tests d s size). Qed.
+Print Assumptions C11_bridge_class_tests.
+Theorem C11_bridge_symm data off size :
+  dec_symm data off size =
+  do (dsap, ssap) <- decode_header data off size;
+  if gen_pdu_symm_badsap dsap ssap then Err DecodeError else
+  if gen_pdu_symm_payload size then Err DecodeError else Ok (Symm dsap ssap).
+Proof. exact (bridge_symm data off size). Qed.
+Print Assumptions C11_bridge_symm.
+Theorem C11_bridge_connect_encode d s miu rw sn :
+  encode (Connect d s miu rw sn) =
+  edo h <- encode_header gen_pdu_ptype_Connect d s;
+  edo a <- (if gen_pdu_connect_enc_miux miu then param_encode (TMiux (gen_pdu_connect_enc_miux_arg miu)) else EOk []);
+  edo b <- (if gen_pdu_connect_enc_rw rw then param_encode (TRw rw) else EOk []);
+  edo c <- (if gen_pdu_connect_enc_sn sn then param_encode (TSn (match sn with Some x => x | None => [] end)) else EOk []);
+  EOk (h ++ a ++ b ++ c).
+Proof. exact (bridge_connect_encode d s miu rw sn). Qed.
+Print Assumptions C11_bridge_connect_encode.
+Theorem C11_bridge_cc_encode d s miu rw :
+  encode (CC d s miu rw) =
+  edo h <- encode_header gen_pdu_ptype_ConnectionComplete d s;
+  edo a <- (if gen_pdu_cc_enc_miux miu then param_encode (TMiux (gen_pdu_cc_enc_miux_arg miu)) else EOk []);
+  edo b <- (if gen_pdu_cc_enc_rw rw then param_encode (TRw rw) else EOk []);
+  EOk (h ++ a ++ b).
+Proof. exact (bridge_cc_encode d s miu rw). Qed.
+Print Assumptions C11_bridge_cc_encode.
+Theorem C11_bridge_connect_decode data off size d s miu rw sn x :
+  dec_connect data off size =
+    (do (dsap, ssap) <- decode_header data off size;
+     tlv_loop (Z.to_nat (size - 2)) connect_step data (off + 2) (size - 2)
+       (Connect dsap ssap gen_pdu_connect_default_miu gen_pdu_connect_default_rw None)) /\
+  dec_cc data off size =
+    (do (dsap, ssap) <- decode_header data off size;
+     tlv_loop (Z.to_nat (size - 2)) cc_step data (off + 2) (size - 2)
+       (CC dsap ssap gen_pdu_cc_default_miu gen_pdu_cc_default_rw)) /\
+  connect_step (Connect d s miu rw sn) (TMiux x) = Connect d s (gen_pdu_connect_dec_miu x) rw sn /\
+  cc_step (CC d s miu rw) (TMiux x) = CC d s (gen_pdu_cc_dec_miu x) rw.
+Proof. exact (bridge_connect_decode data off size d s miu rw sn x). Qed.
+Print Assumptions C11_bridge_connect_decode.
+Theorem C11_bridge_frmr_encode d s fl pt ns nr vs vr vsa vra :
+  encode (Frmr d s fl pt ns nr vs vr vsa vra) =
+  edo h <- encode_header gen_pdu_ptype_FrameReject d s;
+  if forallb (in_range 0 255) (gen_pdu_frmr_bytes fl pt ns nr vs vr vsa vra)
+  then EOk (h ++ gen_pdu_frmr_bytes fl pt ns nr vs vr vsa vra) else ECrash StructErr.
+Proof. exact (bridge_frmr_encode d s fl pt ns nr vs vr vsa vra). Qed.
+Print Assumptions C11_bridge_frmr_encode.
+Theorem C11_bridge_frmr_nibbles b :
+ gen_pdu_frmr_hi b = Z.shiftr b 4 /\ gen_pdu_frmr_lo b = Z.land b 15.
+Proof. exact (bridge_frmr_nibbles b). Qed.
+Print Assumptions C11_bridge_frmr_nibbles.
 
 (* non-vacuity: concrete PDUs / byte strings meeting the hypotheses, including RW = 0 and the former over-reads *)
 Example C11_nonvacuous :
